@@ -293,7 +293,7 @@ func init() {
 		return &Check{ID: "C16", Scenarios: []Scenario{
 			mk("spawnsync-histories", false, map[string]int{"quick": 2, "thorough": 2}, maxLen),
 			// thorough only (histories of length 0 in quick: none)
-			mk("single-calls-deeper-schedules", false, map[string]int{"quick": 3, "thorough": 4}, func(tier string) int {
+			mk("single-calls-deeper-schedules", false, map[string]int{"quick": 3, "thorough": 3}, func(tier string) int {
 				if tier == "thorough" {
 					return 1
 				}
